@@ -1039,9 +1039,8 @@ func runC21(c *Ctx) {
 				set = ci
 			}
 			c.dom("C21.a persist-before-ack", "(*mqtt.Server).processPublish: the inbound QoS marker is recorded (Inflight.Set → OnQosPublish) before the acknowledgement is written", set, ackW, "")
-			if q := c.call1(f, "(*mqtt.Hooks).OnQosPublish"); q != nil {
-				c.before("C21.a persist-before-ack", "(*mqtt.Server).processPublish: OnQosPublish precedes the acknowledgement write", q, ackW, "")
-			}
+			c.before("C21.a persist-before-ack", "(*mqtt.Server).processPublish: OnQosPublish (persistence of the inbound marker) precedes the acknowledgement write", c.call1(f, "(*mqtt.Hooks).OnQosPublish"), ackW,
+				"an acknowledged QoS 2 publish whose marker is not in the store is forwarded again after a restart")
 		}
 	}
 	if f := c.fn("mqtt", "(*Server).retainMessage"); f != nil {
